@@ -341,6 +341,24 @@ func modeDecode(root *rng.R, n int) {
 		tm := m.TemplateMsg()
 		switch i % 5 {
 		case 0:
+			if i%10 == 0 {
+				// a valid message cut at a boundary of its own structure: right behind a delimiter, right
+				// behind a tag's '=', right before the closing delimiter; the trailer's boundaries most often
+				if b, err := m.Build().ToBytes(); err == nil && len(b) > 8 {
+					var cuts []int
+					for k, c := range b {
+						if c == 1 || c == '=' {
+							cuts = append(cuts, k, k+1)
+						}
+					}
+					cut := cuts[r.Intn(len(cuts))]
+					if r.Bool() && len(cuts) > 6 {
+						cut = cuts[len(cuts)-1-r.Intn(6)]
+					}
+					runDecode(i, tm, b[:cut], "truncated-at-boundary")
+					break
+				}
+			}
 			runDecode(i, tm, randomBytes(r, m), "random-bytes")
 		case 1, 2:
 			runDecode(i, tm, frame(m.BsTag, m.BlTag, m.CsTag, m.Bs, hostileBody(r, m)), "framed-hostile")
